@@ -98,8 +98,23 @@ class BlockingTcpTransport:
         if not self.tcp_socket:
             raise RuntimeError("TCP transport not connected.")
         try:
-            header = WrapperHeader.from_bytes(self.tcp_socket.recv(8))
-            data = self.tcp_socket.recv(header.length)
+            header = WrapperHeader.from_bytes(self._recv_exactly(8))
+            data = self._recv_exactly(header.length)
         except (OSError, IOError, socket.timeout, socket.error) as e:
             raise exceptions.CommunicationError("Could not receive data") from e
+        return data
+
+    def _recv_exactly(self, length: int) -> bytes:
+        """
+        socket.recv returns at most the requested amount of bytes but is allowed to
+        return fewer, so we need to keep reading until we have all of them.
+        """
+        data = b""
+        while len(data) < length:
+            chunk = self.tcp_socket.recv(length - len(data))
+            if not chunk:
+                raise exceptions.CommunicationError(
+                    "Connection closed before all data was received"
+                )
+            data += chunk
         return data
